@@ -117,11 +117,21 @@ pub(crate) fn raw(s: &Store, k: u64) -> Option<GEnt> {
         .map(|it| GEnt { key: it.key, conflict: it.conflict, val: *it.value.get(), exp: it.expiration })
 }
 
+/// the conflict hash a key is filed with must let the sweep's `try_remove(key, conflict)` find the
+/// entry: the entry's own conflict hash, or 0 (which the store treats as "matches any"; an update
+/// made with conflict hash 0 re-files the key that way)
+pub(crate) fn filed_conflict_ok(listed: Option<u64>, e: &GEnt) -> bool {
+    match listed {
+        Some(c) => c == e.conflict || c == 0,
+        None => false,
+    }
+}
+
 /// I-EM for one key: filed exactly under its deadline bucket iff resident with a TTL
 pub(crate) fn em_ok(s: &Store, k: u64) -> bool {
     match raw(s, k) {
         Some(e) if !e.exp.is_zero() => {
-            em_listed(&s.em, th::bucket_of(e.exp), k) == Some(e.conflict) && em_count_key(&s.em, k) == 1
+            filed_conflict_ok(em_listed(&s.em, th::bucket_of(e.exp), k), &e) && em_count_key(&s.em, k) == 1
         }
         _ => em_count_key(&s.em, k) == 0,
     }
@@ -269,7 +279,7 @@ fn store_step(op: u8, ttl: u8, forced: Option<bool>, em: bool) {
         // iff resident with a TTL; not filed under the previous bucket any more
         match after {
             Some(e) if !e.exp.is_zero() => {
-                vassert!(filed(&s, e.exp, k) == Some(e.conflict), "I-EM: the addressed key is filed for cleanup under its current deadline");
+                vassert!(filed_conflict_ok(filed(&s, e.exp, k), &e), "I-EM: the addressed key is filed for cleanup under its current deadline (with a conflict hash the sweep's removal will match)");
             }
             _ => {
                 vassert!(filed(&s, new, k).is_none(), "I-EM: a key without TTL (or not resident) is not filed for cleanup");
